@@ -282,7 +282,10 @@ def vecToBytes (t : Ty) (arg : String) : Option String := do
 
 * `c09.query str <qt> <field> <size> [<mbk> <dp> <eps-text> <pm>]` — `Display for QueryConfigQueryParams`
 * `c09.query parse <query-string>` — the axum extractor; `ok <qt> <field> <size> [<mbk> <dp> <eps-text> <pm>]` | `err`
-* `c09.query json <qt> <field> <size> […]` — `serde_json` round trip of `QueryConfig`; `rt-ok`
+* `c09.query json <qt> <field> <size> […]` — `serde_json` round trip of `QueryConfig`; `rt-ok`.  The model answers
+  `rt-ok` for EVERY configuration: since the fix C09-JSON-F64 ipa-core builds serde_json with `float_roundtrip`
+  (translator item `wire.serde_json_float_roundtrip`), so the printed shortest form of `epsilon` parses back to the
+  same `f64`; before the fix the default parser was up to one ULP off (e.g. 15.220688432552539, -9301983688401.117).
 The generator only uses keys/values made of unreserved characters, so splitting at `&` and `=` is all
 there is to url-decoding here. -/
 
